@@ -9,6 +9,7 @@ import (
 	"fmt"
 	"strconv"
 	"strings"
+	"unicode"
 	"unicode/utf8"
 
 	"github.com/charlievieth/strcase"
@@ -808,6 +809,11 @@ func init() {
 		n := 10000 * x.scale
 		ratioCases(true, func(s, t []byte) { x.selfConsistent(s, t) })
 		x.specialPairs(func(s, t []byte) { x.selfConsistent(s, t) })
+		x.strayTails(func(s []byte, r rune) {
+			x.selfConsistent(s, []byte(string(r)))
+			x.selfConsistent(s, []byte(string(unicode.SimpleFold(r))))
+			x.selfConsistentRune(s, int64(r))
+		})
 		for i := 0; i < n; i++ {
 			st := streamValid
 			if i%2 == 1 {
